@@ -37,6 +37,7 @@ type FuncVal struct {
 	Fn       *ssa.Function // nil when unknown
 	Bindings []*Val
 	Opaque   string // term for unknown function values (Int)
+	Harmless bool   // opaque function known to have no effect on modelled state (context cancel funcs)
 }
 
 type PtrKind int
